@@ -8,6 +8,10 @@ out = "/tmp/seed-%s-%s-out" % (pid, tag)
 dst = "/verif/seeded/%s-%s" % (pid, tag)
 os.makedirs(dst, exist_ok=True)
 shutil.copy(os.path.join(out, "patch.diff"), dst)
+if os.path.exists(os.path.join(out, "patch.rebased.diff")):
+    # the change as written is kept as patch.orig.diff; patch.diff is what applies to the current /repo
+    shutil.copy(os.path.join(out, "patch.diff"), os.path.join(dst, "patch.orig.diff"))
+    shutil.copy(os.path.join(out, "patch.rebased.diff"), os.path.join(dst, "patch.diff"))
 for f in glob.glob(os.path.join(out, "demo*_test.go")) + glob.glob(os.path.join(out, "demo/main.go")):
     shutil.copy(f, os.path.join(dst, os.path.basename(f) + ".txt"))  # .txt: not compiled as part of /verif
 if os.path.exists(os.path.join(out, "notes.md")):
